@@ -131,8 +131,11 @@ def gen_instance(rng, big: bool = False) -> dict:
             centers.append("keep")
         elif r < 0.6:
             centers.append([rng.uniform(0, W), rng.uniform(0, H)])
-        elif r < 0.72:  # on the border / corner
+        elif r < 0.68:  # on the border / corner
             centers.append([rng.choice([0.0, W, rng.uniform(0, W)]), rng.choice([0.0, H])])
+        elif r < 0.72:  # exactly on the threshold of the wall repulsion (10% of the size from a side)
+            centers.append([rng.choice([W / 2 - (W / 2 - W / 10), W / 2 + (W / 2 - W / 10), rng.uniform(0, W)]),
+                            rng.choice([H / 2 - (H / 2 - H / 10), H / 2 + (H / 2 - H / 10), rng.uniform(0, H)])])
         elif r < 0.86 and i > 0:  # coincident / nearly coincident with an earlier module
             j = rng.randrange(i)
             c = centers[j] if isinstance(centers[j], list) else None
@@ -207,8 +210,8 @@ def check_layout_corr(ctx: Ctx, inp: dict) -> None:
     """single step / short run correspondence + wl / tia at the resulting state."""
     try:
         die = build(inp)
-    except AssertionError:
-        ctx.count("build-rejected")
+    except Exception as ex:  # Netlist / Die construction is not C13's code: counted, not judged
+        ctx.count("build-rejected:" + type(ex).__name__)
         return
     kappa, iters = inp["kappa"], inp["iters"]
     size = max(die.width, die.height)
@@ -217,18 +220,25 @@ def check_layout_corr(ctx: Ctx, inp: dict) -> None:
     try:
         d2, _ = FR.fruchterman_reingold_layout(deepcopy(die), kappa, max_iter=iters)
     except Exception as ex:  # the layout has no failing path for kappa > 0
-        ctx.spec_fail("layout:returns", inp, {"exception": type(ex).__name__}, size=len(inp["mods"]))
+        ctx.spec_fail("operation-raised", inp, {"op": "fruchterman_reingold_layout", "exception": type(ex).__name__, "msg": str(ex)[:100]},
+                      size=len(inp["mods"]))
         return
     got = centres(d2)
     reqs = [f"F layout {f2hex(kappa)} {iters} {line0}", f"F wl {inst_line(d2)}"]
-    impl_wl = d2.netlist.wire_length
     tia_ok = True
     try:
-        impl_tia = FR.total_intersection_area(d2)
-        reqs.append(f"F tia {inst_line(d2)}")
-    except ValueError:  # acos domain error near tangency: C17's matter
-        tia_ok = False
-        ctx.count("tia-ValueError(C17)")
+        impl_wl = d2.netlist.wire_length
+        wl0 = die.netlist.wire_length if has_all else None
+        try:
+            impl_tia = FR.total_intersection_area(d2)
+            reqs.append(f"F tia {inst_line(d2)}")
+        except ValueError:  # acos domain error near tangency: C17's matter
+            tia_ok = False
+            ctx.count("tia-ValueError(C17)")
+    except Exception as ex:
+        ctx.spec_fail("operation-raised", inp, {"op": "wire_length/total_intersection_area", "exception": type(ex).__name__,
+                                                "msg": str(ex)[:100]}, size=len(inp["mods"]))
+        return
     if has_all:
         reqs.append(f"F wl {line0}")
     out = ctx.model(reqs)
@@ -259,7 +269,7 @@ def check_layout_corr(ctx: Ctx, inp: dict) -> None:
         cmp_scalar("tia", float(impl_tia), out[k])
         k += 1
     if has_all:
-        cmp_scalar("wl0", float(die.netlist.wire_length), out[k])
+        cmp_scalar("wl0", float(wl0), out[k])
 
 
 def spec_on_output(ctx: Ctx, inp: dict, before, before_c, die, out_die, what: str) -> bool:
@@ -303,8 +313,8 @@ def check_long_run(ctx: Ctx, inp: dict) -> None:
     """clauses on fruchterman_reingold_layout (any kappa > 0, any iteration count): no model involved."""
     try:
         die = build(inp)
-    except AssertionError:
-        ctx.count("build-rejected")
+    except Exception as ex:  # Netlist / Die construction is not C13's code: counted, not judged
+        ctx.count("build-rejected:" + type(ex).__name__)
         return
     n = len(inp["mods"])
     before, before_c = snapshot(die), centres(die)
@@ -312,11 +322,15 @@ def check_long_run(ctx: Ctx, inp: dict) -> None:
     try:
         out, imgs = FR.fruchterman_reingold_layout(die, inp["kappa"], max_iter=inp["iters"])
     except Exception as ex:
-        ctx.spec_fail("layout:returns", inp, {"exception": type(ex).__name__, "msg": str(ex)[:100]}, size=n)
+        ctx.spec_fail("operation-raised", inp, {"op": "fruchterman_reingold_layout", "exception": type(ex).__name__, "msg": str(ex)[:100]}, size=n)
         return
     ctx.case("long-run", (inst_line(twin), inp["kappa"], inp["iters"]), any(not m.is_fixed for m in die.netlist.modules))
     spec_on_output(ctx, inp, before, before_c, die, out, "layout")
-    out2, _ = FR.fruchterman_reingold_layout(twin, inp["kappa"], max_iter=inp["iters"])
+    try:
+        out2, _ = FR.fruchterman_reingold_layout(twin, inp["kappa"], max_iter=inp["iters"])
+    except Exception as ex:
+        ctx.spec_fail("operation-raised", inp, {"op": "fruchterman_reingold_layout (2nd run)", "exception": type(ex).__name__}, size=n)
+        return
     if centres(out2) != centres(out):
         ctx.spec_fail("layout:deterministic", inp, {"run1": str(centres(out))[:200], "run2": str(centres(out2))[:200]}, size=n)
     # fixed and terminal modules inside the die to start with stay inside: every centre inside
@@ -332,8 +346,8 @@ def check_force(ctx: Ctx, inp: dict, corr: bool) -> None:
     """force_algorithm: clauses + best-kappa by recomputation; correspondence with the model on short runs."""
     try:
         die = build(inp)
-    except AssertionError:
-        ctx.count("build-rejected")
+    except Exception as ex:  # Netlist / Die construction is not C13's code: counted, not judged
+        ctx.count("build-rejected:" + type(ex).__name__)
         return
     if any(m.center is None for m in die.netlist.modules):
         ctx.count("force-skipped-missing-centre")  # total_intersection_area asserts centres: all set by the layout anyway
@@ -351,7 +365,7 @@ def check_force(ctx: Ctx, inp: dict, corr: bool) -> None:
         ctx.count("tia-ValueError(C17)")
         return
     except Exception as ex:
-        ctx.spec_fail("force:returns", inp, {"exception": type(ex).__name__}, size=n)
+        ctx.spec_fail("operation-raised", inp, {"op": "layout/cost table", "exception": type(ex).__name__, "msg": str(ex)[:100]}, size=n)
         return
     twin = deepcopy(die)
     try:
@@ -360,7 +374,7 @@ def check_force(ctx: Ctx, inp: dict, corr: bool) -> None:
         ctx.count("tia-ValueError(C17)")
         return
     except Exception as ex:
-        ctx.spec_fail("force:returns", inp, {"exception": type(ex).__name__, "msg": str(ex)[:100]}, size=n)
+        ctx.spec_fail("operation-raised", inp, {"op": "force_algorithm", "exception": type(ex).__name__, "msg": str(ex)[:100]}, size=n)
         return
     ctx.case("force", (line0, iters), any(not m.is_fixed for m in die.netlist.modules),
              sample={"n": n, "iters": iters, "costs": [round(c, 6) for c in table[:4]]})
@@ -382,7 +396,11 @@ def check_force(ctx: Ctx, inp: dict, corr: bool) -> None:
         ctx.spec_fail("force:best-kappa", inp, {"costs": table, "expected_index": best, "returned_index": which}, size=n)
     if any(table[best] > c for c in table):
         ctx.spec_fail("force:best-kappa-minimal", inp, {"costs": table}, size=n)
-    out2, _ = FR.force_algorithm(twin, max_iter=iters)
+    try:
+        out2, _ = FR.force_algorithm(twin, max_iter=iters)
+    except Exception as ex:
+        ctx.spec_fail("operation-raised", inp, {"op": "force_algorithm (2nd run)", "exception": type(ex).__name__}, size=n)
+        return
     if centres(out2) != got:
         ctx.spec_fail("force:deterministic", inp, {}, size=n)
     # model side
@@ -459,7 +477,7 @@ def run(ctx: Ctx) -> None:
     for inp in seeds:
         replay(ctx, {"input": inp})
     check_clamp(ctx)
-    for i in range(ctx.n(170, 1500)):
+    for i in range(ctx.n(400, 3000)):
         inp = gen_instance(rng, big=ctx.tier != "quick")
         inp["kappa"] = rng.choice(KAPPAS) if rng.random() < 0.5 else round(rng.uniform(0.05, 3.0), rng.choice([1, 3, 12]))
         inp["iters"] = 1 if rng.random() < 0.66 else rng.randint(2, 5)
@@ -469,13 +487,13 @@ def run(ctx: Ctx) -> None:
         ctx.count(f"layout-iters-{min(inp['iters'], 2)}{'+' if inp['iters'] >= 2 else ''}")
         ctx.count(f"modules-{len(inp['mods'])}")
         check_layout_corr(ctx, inp)
-    for i in range(ctx.n(40, 1000)):
+    for i in range(ctx.n(80, 1500)):
         inp = gen_instance(rng, big=ctx.tier != "quick")
         inp["kappa"] = rng.choice(KAPPAS) if rng.random() < 0.3 else round(rng.uniform(0.05, 3.0), 3)
         inp["iters"] = rng.randint(6, 30 if ctx.tier == "quick" else 100)
         inp["stream"] = "long"
         check_long_run(ctx, inp)
-    for i in range(ctx.n(24, 300)):
+    for i in range(ctx.n(50, 500)):
         inp = gen_instance(rng, big=False)
         inp["centers"] = [c if c is not None else "keep" for c in inp["centers"]]
         for m in inp["mods"]:
